@@ -12,6 +12,8 @@ import TorrentVerif.Model.RecheckFull
       n pairs   the payload: `<relpath-hex>` = hex of the `/`-separated path below the payload root,
                 `<blob>` its contents (Drv.blobTok).  A single-file payload (the payload root is a
                 regular file) is ONE pair with relpath `-`.  n = 0: an empty directory.
+      optional tail  `siblings <m> (<relpath-hex> <blob>)×m` (only with `parent`): further files in
+                the parent directory, paths relative to the parent (next to the payload entry).
       Answer:   `<impl> | <spec>`
                 impl = `<v>… <matched> <consumed>` with v = `<0|1>:<size>` per piece (as Driver/G3), or
                        `ERR <kind>` (kind = constructor name of `RF.Err`);  from `Impl.recheck sha1 sha256 B 32`
@@ -60,21 +62,24 @@ def insertAt : Nat → Node → List Bytes → Bytes → Node
       .dir (es.map fun e => if e.1 = c then (e.1, insertAt f e.2 cs d) else e)
     else .dir (es ++ [(c, insertAt f (.dir []) cs d)])
 
-def parsePairs : Nat → List String → Except String (List (Bytes × Bytes))
-  | 0, [] => .ok []
+def parsePairs : Nat → List String → Except String (List (Bytes × Bytes) × List String)
+  | 0, rest => .ok ([], rest)
   | n + 1, p :: b :: t => do
     let rel ← hexTok p
     let d ← blobTok b
     let r ← parsePairs n t
-    .ok ((rel, d) :: r)
+    .ok ((rel, d) :: r.1, r.2)
   | _, _ => .error "bad-pair-count"
+
+def addFiles (nd : Node) (pairs : List (Bytes × Bytes)) : Node :=
+  pairs.foldl (fun nd p =>
+    let comps := splitSlash p.1
+    insertAt (comps.length + 1) nd comps p.2) nd
 
 def buildDisk (pairs : List (Bytes × Bytes)) : Disk :=
   match pairs with
   | [([], d)] => .file d
-  | _ => pairs.foldl (fun nd p =>
-      let comps := splitSlash p.1
-      insertAt (comps.length + 1) nd comps p.2) (.dir [])
+  | _ => addFiles (.dir []) pairs
 
 end DrvG8
 
@@ -89,9 +94,24 @@ def handleG8 : List String → Option (Except String String)
     let argName ← hexTok nameS
     let B ← natTok bS
     let n ← natTok nS
-    let pairs ← parsePairs n rest
+    let (pairs, tail) ← parsePairs n rest
     let disk := buildDisk pairs
-    let impl := match Impl.recheck sha1 sha256 B 32 mfBytes ⟨kind, argName⟩ disk with
+    let sibs ← match tail with
+      | [] => pure []
+      | "siblings" :: mS :: more => do
+        let m ← natTok mS
+        let (sp, tail') ← parsePairs m more
+        if tail' ≠ [] then throw "extra-token"
+        if kind ≠ ArgKind.parent then throw "siblings-need-parent"
+        pure sp
+      | _ => throw "bad-tail"
+    let run : Except Err (List (Bool × Nat) × Nat × Nat) :=
+      if sibs.isEmpty then Impl.recheck sha1 sha256 B 32 mfBytes ⟨kind, argName⟩ disk
+      else match Impl.loads mfBytes with
+        | none => .error .decodeError
+        | some mf => Impl.recheckMeta sha1 sha256 B 32 mf argName
+            (some (addFiles (.dir [(Impl.nameOf mf, disk)]) sibs))
+    let impl := match run with
       | .ok r => resultStr r
       | .error e => "ERR " ++ errStr e
     let spec := match (Impl.loads mfBytes).bind (fun mf => Spec.recheck sha1 sha256 B 32 mf disk) with
